@@ -1,3 +1,7 @@
 fn main() {
+    // cross-process repetition: a child started by the check itself only runs one configuration
+    if let Ok(spec) = std::env::var(c20::driver::CHILD_ENV) {
+        c20::child_main(&spec)
+    }
     vengine::main(c20::property())
 }
